@@ -1,4 +1,4 @@
-import sys; sys.path.insert(0,'/tmp/fixes'); from edit import rep
+import sys; sys.path.insert(0,'/verif/tools'); from edit import rep
 rep('segno/encoder.py', """            overhead += len(self.modes) * 4
         elif version > consts.VERSION_M1:""", """            overhead += len(self.modes) * 4
             # Hanzi: 4 bits for the subset indicator
